@@ -317,6 +317,14 @@ struct FuncEmitter {
           for (const Expr *A : CC->arguments())
             J.value((int64_t)ids[A]);
         });
+      } else if (auto *LE = dyn_cast<LambdaExpr>(S)) {
+        // the lambda's own parameters (declaration order), so that nested lambdas can be told apart
+        if (auto *OP = LE->getCallOperator()) {
+          J.attributeArray("lparams", [&] {
+            for (auto *P : OP->parameters())
+              J.value((int64_t)declId(P));
+          });
+        }
       } else if (auto *IL = dyn_cast<IntegerLiteral>(S)) {
         llvm::SmallString<32> B;
         IL->getValue().toString(B, 10, false);
